@@ -2,7 +2,7 @@
    Model: Gpbft/Validator.v (hand-written mirror of gpbft/validator.go; validateByProgress is GENERATED from the
    source), tied to the real cachingValidator by the history correspondence (harness c05.go). *)
 From Coq Require Import ZArith List Bool.
-From F3 Require Import GoInt QuorumGen ProgressGen Validator ValidatorProofs.
+From F3 Require Import GoInt QuorumGen ProgressGen Validator ValidatorProofs ValidatorTablesGen ValidatorTables.
 Import ListNotations.
 Open Scope Z_scope.
 
@@ -56,3 +56,10 @@ Example C05_nonvacuous :
   accepts 1 ex_cmt None ex_q = true /\ accepts 1 ex_cmt None ex_c = true /\ accepts 1 ex_cmt None ex_c_forged = false /\
   by_progress (mkProg 10 2 3) 2 ex_c = None.
 Proof. vm_compute. repeat split. Qed.
+
+(* the justification-expectation table the model consults IS the table of gpbft/validator.go, regenerated from the source
+   on every run (message step -> admissible justification steps -> demanded round and value) *)
+Theorem C05_expectation_table_is_the_code : forall mp mr jp key,
+  expectation mp mr jp key = expectation_gen mp mr jp key.
+Proof. exact expectation_is_the_generated_table. Qed.
+Print Assumptions C05_expectation_table_is_the_code.
